@@ -1,34 +1,67 @@
 /-
   Props/C09Tx — C09 for histories of TRANSACTIONS (`Model/LCTx.lean`: a transaction is a list of messages; the
-  whole ante chain runs over all messages before any message executes).
+  whole ante chain runs over all messages before any message executes), for the light-client decorator AS PATCHED
+  (`checkedMsgsTravelWithIBCOnly`: a transaction that carries a message the decorator checks — ibc MsgUpdateClient,
+  MsgSubmitMisbehaviour, MsgChannelOpenAck — must consist of ibc core messages only).
 
-  The property text: "no sequence of client updates and state updates, in either order" makes the canonical
-  client disagree with a block descriptor.  Full statement, for every history of transactions:
+  The property text: "no sequence of client updates and state updates, in either order" makes the canonical client
+  disagree with a block descriptor.  With the patch the statement holds at full strength for every history of
+  transactions of any number of messages (`agreement_inv_tx`).  Before the patch it was false (the ante handler checked
+  a header before the MsgUpdateState / MsgSetCanonicalClient travelling in the same transaction had executed; replays
+  corpus/C09/tx_*.ops, finding `C09/later_conflict_rejected/conflicting-items-accepted-in-one-transaction`); the former
+  counterexamples are kept below as refusals.
 
-      theorem agreement_inv_tx (p : Core.Params) (txs : List (List Op)) : AgreeInv (runTx (init p) txs)
-
-  It is FALSE of the current code (`agreement_inv_tx_counterexample`, reproduced on the real application by the
-  monitor `C09/later_conflict_rejected/conflicting-items-accepted-in-one-transaction`): the hub-side check of a
-  MsgUpdateClient is made by the ante handler, before the MsgUpdateState travelling in the same transaction has
-  executed, and is not repeated when the client update executes.  What the code does guarantee is the statement
-  for transactions of one message (`agreement_inv_tx_partial`) — the theorems of `Props/C09.lean` are about those.
+  Transaction shapes that remain possible (`accepted_tx_shape`): a transaction that gets past the ante chain either
+  carries none of the three checked message types (any mix of rollapp / sequencer / lightclient messages, wrappers
+  included, and unchecked ibc messages), or consists of ibc core messages only (client updates with packets /
+  handshake messages / client creation — nothing that posts rollapp state or designates a client).
 -/
-import DymVerif.Lemmas.LCTx
+import DymVerif.Lemmas.LCTxGood
 import DymVerif.Props.C09
 namespace DymVerif.Props.C09
 open DymVerif DymVerif.LC
 
 /-- **tx_single_is_step** — one message per transaction: the transaction is exactly the op of `Props/C09.lean`
-    (ante part and message part of `updateClient` / `misbehaviour` / `chanAck` compose back) -/
+    (ante part and message part of `updateClient` / `misbehaviour` / `chanAck` compose back; a single message is
+    never refused as mixed) -/
 theorem tx_single_is_step (s : St) (op : Op) : txStep s [op] = step s op := txStep_single s op
 
-/-- **agreement_inv_tx_partial** — for every history of transactions that carry at most one message each, in the
+/-- **agreement_inv_tx** — FULL STRENGTH: for every history of transactions, each of any number of messages, in the
     state reached every consensus state of a canonical client agrees (root, timestamp) with the descriptor of its
-    height.  (`SafeRun`: see `agreement_inv`.) -/
+    height.  (`SafeRunTx`: the side condition of `agreement_inv` — at each designation the descriptor table of M-LC is
+    covered by the state infos of M-Core — through the message phases.) -/
+theorem agreement_inv_tx (p : Core.Params) (txs : List (List Op)) (hs : SafeRunTx (init p) txs) :
+    AgreeInv (runTx (init p) txs) :=
+  (runTx_good txs (init p) (init_good p) hs).agree
+
+/-- the designation maps stay mutually inverse through every transaction history -/
+theorem designation_tx (p : Core.Params) (txs : List (List Op)) (hs : SafeRunTx (init p) txs) :
+    MapsInv (runTx (init p) txs) :=
+  (runTx_good txs (init p) (init_good p) hs).maps
+
+/-- **agreement_inv_tx_partial** — the statement for single-message transactions in terms of `SafeRun` (kept: it is
+    what held before the patch) -/
 theorem agreement_inv_tx_partial (p : Core.Params) (txs : List (List Op)) (h1 : SingleMsg txs)
     (hs : SafeRun (init p) txs.flatten) : AgreeInv (runTx (init p) txs) := by
   rw [runTx_single txs (init p) h1]
   exact agreement_inv p txs.flatten hs
+
+/-- **accepted_tx_shape** — a transaction the ante chain lets through either carries no checked message or consists of
+    ibc core messages only -/
+theorem accepted_tx_shape (s : St) (ms : List Op) (h : ∀ e, (txStep s ms).2 ≠ .ante e) :
+    (∀ m ∈ ms, isChecked m = false) ∨ (∀ m ∈ ms, isIbcCore m = true) := by
+  apply mixed_false
+  cases hm : mixedRefusal ms with
+  | false => rfl
+  | true =>
+    exfalso
+    unfold txStep at h
+    split at h
+    · rename_i e _; exact h e rfl
+    split at h
+    · rename_i e _; exact h e rfl
+    simp only [hm, if_true] at h
+    exact h .mixedTx rfl
 
 /-- **agreement_inv_checked** — `agreement_inv` with the side condition in its executable form: if the coverage check
     `coveredB` (every descriptor of M-LC lies in a state info of M-Core) holds in every state along the run — the driver
@@ -44,58 +77,33 @@ theorem designation_tx_partial (p : Core.Params) (txs : List (List Op)) (h1 : Si
   rw [runTx_single txs (init p) h1]
   exact (designation_unique_stable p txs.flatten).1
 
--- ------------------------------------------------------------------------------------------------ the counterexample
+/-- a mixed transaction changes nothing -/
+theorem mixed_tx_refused (s : St) (ms : List Op) (hn : ms.findSome? (nestedRefusal s) = none)
+    (hsg : ms.findSome? (signerRefusal s) = none) (hm : mixedRefusal ms = true) : txStep s ms = (s, .ante .mixedTx) := by
+  simp [txStep, hn, hsg, hm]
 
-/-- the header of the counterexample: height 5, state root 99 (the descriptor will say 6), signed by a0 -/
+-- ------------------------------------------------------------------------------------------------ the former counterexamples
+
+/-- the header of the former counterexample: height 5, state root 99 (the descriptor will say 6), signed by a0 -/
 def hdrTx : Hdr := { h := 5, cons := ⟨99, 50, 1⟩, propSig := 0, propData := 0, rev := 0, sole := true }
 
 /-- ONE transaction: the state update for heights 4..5 (honest: root of 5 is 6) and the conflicting header for 5 -/
 def txBad : List Op := [upd 0 0 4 2, .updateClient 0 .top hdrTx true]
 
-/-- the history: `opsA` one message per transaction (rollapp 0 with heights 1..3, honest canonical client), then `txBad` -/
-def txsBad : List (List Op) := opsA.map (fun o => [o]) ++ [txBad]
-
-def sBad : St := runTx (init P0) txsBad
-
-/-- the transaction goes through -/
-example : (txStep sA txBad).2 = .ok := by decide
-
-/-- **agreement_inv_tx_counterexample** (monitor `C09/later_conflict_rejected/conflicting-items-accepted-in-one-transaction`)
-    — after the history `txsBad` the canonical client 0 of rollapp 0 has the consensus state (root 99) at height 5
-    and the descriptor of height 5 has root 6: `AgreeInv` fails.  The signer record the ante handler saved for the
-    header has been pruned by the state update of the same transaction, so nothing keeps the sequencer bonded. -/
-theorem agreement_inv_tx_counterexample : ¬ AgreeInv sBad ∧ sBad.signerSet = [] := by
-  refine ⟨?_, by decide⟩
-  intro h
-  have hcl : (getClient sBad 0).isSome = true := by decide
-  cases hg : getClient sBad 0 with
-  | none => simp [hg] at hcl
-  | some cl =>
-    have hcons : getCons cl 5 = some ⟨99, 50, 1⟩ := by
-      have : (getClient sBad 0).bind (fun cl => getCons cl 5) = some ⟨99, 50, 1⟩ := by decide
-      simpa [hg] using this
-    have hdesc : getDesc sBad 0 5 = some ⟨0, 5, 6, some 50⟩ := by decide
-    have hr : lookup sBad.r2c 0 = some 0 := by decide
-    have := (h 0 0 cl 5 _ _ hr hg hcons hdesc).1
-    exact absurd this (by decide)
+/-- it is refused as a whole, in either order of its messages, and for a height inside the batch -/
+example : txStep sA txBad = (sA, .ante .mixedTx) := by
+  refine Prod.ext ?_ ?_
+  · rfl
+  · decide
+example : (txStep sA [.updateClient 0 .top hdrTx true, upd 0 0 4 2]).2 = .ante .mixedTx := by decide
+example : (txStep sA [upd 0 0 4 2, .updateClient 0 .top { hdrTx with h := 4, cons := ⟨99, 40, 1⟩ } true]).2 = .ante .mixedTx := by decide
 
 /-- the same two messages in two transactions: the header is refused by the ante handler (root mismatch) -/
 example : (txStep (txStep sA [upd 0 0 4 2]).1 [.updateClient 0 .top hdrTx true]).2 = .ante .root := by decide
 
-/-- mirrored order in one transaction: the header first.  The hook of the state update finds the consensus state the
-    header wrote and refuses; the transaction is atomic, only the ante write (the signer record) is kept. -/
-example : (txStep sA [.updateClient 0 .top hdrTx true, upd 0 0 4 2]).2 = .msg .root ∧
-    (txStep sA [.updateClient 0 .top hdrTx true, upd 0 0 4 2]).1.signerSet = [(0, 0, 5)] ∧
-    ((getClient (txStep sA [.updateClient 0 .top hdrTx true, upd 0 0 4 2]).1 0).map (·.cons.length)) = some 1 := by decide
-
-/-- the header for a height inside the batch (4 of 4..5) gets in the same way -/
-example : (txStep sA [upd 0 0 4 2, .updateClient 0 .top { hdrTx with h := 4, cons := ⟨99, 40, 1⟩ } true]).2 = .ok := by decide
-
-/-- nothing later repairs it: the next state update is accepted, the disagreeing pair stays -/
-example : (step sBad (upd 0 0 6 1)).2 = .ok ∧
-    ((getClient (step sBad (upd 0 0 6 1)).1 0).bind fun cl => getCons cl 5) = some ⟨99, 50, 1⟩ := by decide
-
--- ------------------------------------------------------------------------------------------------ designation first
+/-- an honest header travelling with another header (ibc core messages only) is still accepted -/
+example : (txStep sA [.updateClient 0 .top { hdrTx with h := 4, cons := ⟨5, 40, 1⟩ } true,
+    .updateClient 0 .top { hdrTx with cons := ⟨6, 50, 1⟩ } true]).2 = .ok := by decide
 
 /-- rollapp 0 with heights 1..3 posted and a client (not canonical) whose consensus state at height 1 agrees -/
 def opsE : List Op := mkRa 0 0 ++ [upd 0 0 1 3, .createClient 0 expParams 1 ⟨2, 10, 1⟩]
@@ -104,23 +112,10 @@ def sE : St := run (init P0) opsE
 /-- a header for the posted height 3 with root 99 (descriptor: 4) naming the unregistered key 1001 as proposer -/
 def hdrUnattr : Hdr := { h := 3, cons := ⟨99, 30, 1⟩, propSig := 1001, propData := 1001, rev := 0, sole := false }
 
-/-- second shape of **agreement_inv_tx_counterexample**: ONE transaction [designation, header].  The ante handler sees a
-    client that is not canonical and a proposer that is no sequencer; alone, either order of the two messages in two
-    transactions is refused. -/
-theorem agreement_inv_tx_counterexample_designation :
-    (txStep sE [.setCanonical 0, .updateClient 0 .top hdrUnattr true]).2 = .ok ∧
-    lookup (txStep sE [.setCanonical 0, .updateClient 0 .top hdrUnattr true]).1.r2c 0 = some 0 ∧
-    ((getClient (txStep sE [.setCanonical 0, .updateClient 0 .top hdrUnattr true]).1 0).bind fun cl => (getCons cl 3).map (·.root)) = some 99 ∧
-    ((getDesc (txStep sE [.setCanonical 0, .updateClient 0 .top hdrUnattr true]).1 0 3).map (·.root)) = some 4 ∧
+/-- designation first, then the header / the evidence, in one transaction: refused (before the patch: accepted) -/
+example : (txStep sE [.setCanonical 0, .updateClient 0 .top hdrUnattr true]).2 = .ante .mixedTx ∧
+    (txStep sE [.setCanonical 0, .misbehaviour 0 .submit true]).2 = .ante .mixedTx ∧
     (step (step sE (.setCanonical 0)).1 (.updateClient 0 .top hdrUnattr true)).2 = .ante .nonSequencer ∧
     (step (step sE (.updateClient 0 .top hdrUnattr true)).1 (.setCanonical 0)).2 = .msg .root := by decide
-
-/-- **misbehaviour_rejected_tx_counterexample** (monitor `C09/misbehaviour_rejected/client-designated-and-frozen-in-one-transaction`):
-    ONE transaction [designation, verifying evidence] leaves the canonical client frozen; `misbehaviour_rejected`
-    (Props/C09.lean) is the statement for single-message transactions. -/
-theorem misbehaviour_rejected_tx_counterexample :
-    (txStep sE [.setCanonical 0, .misbehaviour 0 .submit true]).2 = .ok ∧
-    lookup (txStep sE [.setCanonical 0, .misbehaviour 0 .submit true]).1.c2r 0 = some 0 ∧
-    ((getClient (txStep sE [.setCanonical 0, .misbehaviour 0 .submit true]).1 0).map (·.frozen)) = some true := by decide
 
 end DymVerif.Props.C09
